@@ -116,6 +116,7 @@ def conformance(harness, henv=None):
             diffs.append(f"{x[0]}: native {x[1][:200]} != traced {y[1][:200]}")
     if len(a["observations"]) != len(b["observations"]):
         diffs.append("observation count differs")
+    conformance.last_native = a["observations"]
     return not diffs, len(a["observations"]), diffs
 
 
@@ -190,6 +191,21 @@ class Run:
                 h, henv = h
             hp = h if os.path.isabs(h) else os.path.join(ROOT, "harness", h)
             ok, n, diffs = conformance(hp, henv)
+            # a conformance input may be the property function itself on a concrete input: a native `False`
+            # is then a concrete counterexample against the real code (e.g. state kept in functools caches,
+            # which the engine bypasses) - replayed like any other before it is reported
+            mains = {c.fn for c in conds if c.harness == hp and c.fn}
+            try:
+                import importlib.util as _u, ast as _ast
+                conf_src = open(hp).read()
+            except OSError:
+                conf_src = ""
+            for (fname, val), item in zip(getattr(conformance, "last_native", []), self._conf_items(hp, henv)):
+                if fname in mains and val == "False":
+                    args = {f"#{i}": a for i, a in enumerate(item[1])}
+                    rp = native_replay(hp, fname, args, henv=henv)
+                    if rp.get("result") == "violated":
+                        self.add_violation(os.path.basename(hp), fname, args, {"source": "conformance input (concrete)", "native": rp}, henv)
             if ok and n == 0:
                 self.errors.append(f"conformance list of {os.path.basename(hp)} is empty")
             self.extra.setdefault("conformance_inputs", 0)
@@ -213,6 +229,15 @@ class Run:
                 r["twin"] = is_twin
                 self.results.append(r)
                 self._judge(c, fn, is_twin, r)
+
+    def _conf_items(self, hp, henv):
+        """the harness' CONFORMANCE list (function name, argument list), read in a native subprocess"""
+        code = ("import sys, json, os; sys.path.insert(0, %r); os.environ['VERIF_NATIVE']='1'; os.environ['VERIF_CONFORM']='1'\n"
+                "from engine import native\nm = native.load(%r)\n"
+                "from engine.chrun import jsonable\nprint('ITEMS=' + json.dumps([[f, jsonable(list(a))] for f, a in getattr(m, 'CONFORMANCE', [])]))" % (ROOT, hp))
+        p = subprocess.run([PY, "-c", code], capture_output=True, text=True, cwd=ROOT, env=_env({"VERIF_NATIVE": "1", "VERIF_CONFORM": "1", **(henv or {})}), timeout=600)
+        r = _tagged(p.stdout, "ITEMS")
+        return r or []
 
     def _judge(self, c, fn, is_twin, r):
         st = r["status"]
